@@ -189,4 +189,84 @@ theorem mapM_toInt_length (hs : List Header) (zs : List Int) (h : hs.mapM Header
         subst h
         simp [ih zs' hh]
 
+theorem ragged_all_none (a : List Int) : ragged a (a.map fun _ => (none : Option ℚ)) = [] := by
+  induction a with
+  | nil => simp [ragged]
+  | cons x a ih => simpa [ragged] using ih
+
+theorem ragged_unragged (a : List Int) (row : List (Int × ℚ)) (hnd : a.Nodup)
+    (hsub : (row.map Prod.fst).Sublist a) : ragged a (unragged a row) = row := by
+  induction a generalizing row with
+  | nil =>
+    have : row = [] := by
+      cases row with
+      | nil => rfl
+      | cons p r => simp at hsub
+    subst this; simp [ragged, unragged]
+  | cons x a ih =>
+    have hx : x ∉ a := (List.nodup_cons.mp hnd).1
+    have hnd' := (List.nodup_cons.mp hnd).2
+    cases row with
+    | nil =>
+      have := ragged_all_none (x :: a)
+      simpa [unragged] using this
+    | cons p row =>
+      obtain ⟨k, y⟩ := p
+      simp only [List.map_cons] at hsub
+      by_cases hk : k = x
+      · subst hk
+        have hsub' : (row.map Prod.fst).Sublist a := by
+          cases hsub with
+          | cons _ h => exact absurd (h.subset (by simp)) hx
+          | cons_cons _ h => exact h
+        have hrest : a.map (fun z => ((k, y) :: row).lookup z) = a.map fun z => row.lookup z := by
+          apply List.map_congr_left
+          intro z hz
+          have hne : z ≠ k := fun h => hx (h ▸ hz)
+          have hb : (z == k) = false := by simpa using hne
+          simp [List.lookup_cons, hb]
+        unfold unragged
+        simp only [List.map_cons, List.lookup_cons_self]
+        rw [hrest]
+        have := ih row hnd' hsub'
+        unfold unragged at this
+        simp [ragged] at this ⊢
+        exact this
+      · have hsub' : ((k :: row.map Prod.fst)).Sublist a := by
+          cases hsub with
+          | cons _ h => exact h
+          | cons_cons _ h => exact absurd rfl hk
+        have hxk : x ∉ (k :: row.map Prod.fst) := fun h => hx (hsub'.subset h)
+        have hlook : ((k, y) :: row).lookup x = none := by
+          rw [List.lookup_eq_none_iff]
+          intro p hp
+          have : p.1 ∈ (k :: row.map Prod.fst) := by
+            rcases List.mem_cons.mp hp with rfl | hp
+            · simp
+            · exact List.mem_cons_of_mem _ (List.mem_map.mpr ⟨p, hp, rfl⟩)
+          have hne : x ≠ p.1 := fun h => hxk (h ▸ this)
+          simpa using hne
+        have := ih ((k, y) :: row) hnd' (by simpa using hsub')
+        unfold unragged at this ⊢
+        simp only [List.map_cons, hlook]
+        simp [ragged] at this ⊢
+        exact this
+
+theorem ragged_length_of_all_some {α : Type} (g : List α) (row : List (Option ℚ))
+    (hlen : row.length = g.length) (h : ∀ v ∈ row, v.isSome = true) :
+    (ragged g row).length = g.length := by
+  induction g generalizing row with
+  | nil => simp [ragged]
+  | cons a g ih =>
+    cases row with
+    | nil => simp at hlen
+    | cons v row =>
+      have hv := h v (by simp)
+      cases v with
+      | none => simp at hv
+      | some y =>
+        have := ih row (by simpa using hlen) (fun v hv => h v (List.mem_cons_of_mem _ hv))
+        simp [ragged] at this ⊢
+        exact this
+
 end FDA.Tab
